@@ -686,6 +686,7 @@ def selftest():
     V = []
     b = lambda name, file, old, new, rule, expect="", **kw: V.append(dict(name=name, kind="break", file=file, old=old, new=new, rule=rule, expect=expect, **kw))
     n = lambda name, file, old, new, **kw: V.append(dict(name=name, kind="neutral", file=file, old=old, new=new, **kw))
+    b("projected thermal sums mask the component axis", PY, "                        eigvecs2[:, cond],", "                        eigvecs2[cond],", "R10k", "_calculate_thermal_property")
     b("entropy: sign of the log term", PY, "return freqs / temp * expVal / (1.0 - expVal) - Kb * np.log(1.0 - expVal)", "return freqs / temp * expVal / (1.0 - expVal) + Kb * np.log(1.0 - expVal)", "R10a", "S + dF/dT")
     b("heat capacity: exp(+x) form back (NaN at large x)", PY, "        expVal = np.exp(-x)\n        return Kb * x**2 * expVal / (1.0 - expVal) ** 2", "        expVal = np.exp(x)\n        return Kb * x**2 * expVal / (expVal - 1.0) ** 2", "R10c", "mode_cv")
     b("free energy: zero-point half dropped in Python", PY, "np.log(1.0 - np.exp((-freqs) / (Kb * temp))) + freqs / 2", "np.log(1.0 - np.exp((-freqs) / (Kb * temp)))", "R10a", "documented")
